@@ -653,7 +653,7 @@ class ReceiveDropped(ActorStep):
         if self.variant == 'Delete':
             m2, s2 = tracker_parts(ctx, f['outstanding'])
             mgr = fld(ctx, st.mstate.v, 'State', 'subscriptions', 'subscriptions/subscription_manager')
-            push = fld(ctx, st.pstate.v, 'PushSubscriptionsRegistryState', 'push_subscriptions')
+            push = fld_single(ctx, st.pstate.v, 'PushSubscriptionsRegistryState')
             out.append(Claim('an enqueued delete completes without its caller: deleted, unregistered, cleared, push unregistered',
                              z3.And(f['deleted'], z3.Not(mgr.found(st.name)), f['backlog'].n == 0, m2.count() == 0, z3.Not(push.found(st.name)))))
             out.append(Claim('consumers were told', any(e[0] == 'notify_waiters' and e[1] == 'messages_available' for e in res['log'])))
@@ -895,7 +895,7 @@ class SubscriptionActorHistory(Obligation):
         observer = run_to_end(ip.call_fn(ctx.fn('SubscriptionObserver', 'new'), []))
         mstate = Cell(mk_opt(ctx, 'State', 'subscriptions/subscription_manager', subscriptions=MapM([]), next_id=S(p.fresh('s_next'), 'u32')), 'smgr-state')
         delegate = mk(ctx, 'SubscriptionManagerDelegate', state=ArcCell(Cell(LockM('subscription_manager.state', mstate))))
-        pstate = Cell(mk(ctx, 'PushSubscriptionsRegistryState', push_subscriptions=MapM([])), 'pstate')
+        pstate = Cell(mk_single(ctx, 'PushSubscriptionsRegistryState', MapM([])), 'pstate')
         reg = mk(ctx, 'PushSubscriptionsRegistry', state=ArcCell(Cell(LockM('push_registry.state', pstate))))
         n0 = len(p.log)
         run_to_end(ip.call_fn(ctx.fn('SubscriptionActor', 'start'),
@@ -1018,7 +1018,7 @@ class SubscriptionActorExpiryHistory(SubscriptionActorHistory):
         observer = run_to_end(ip.call_fn(ctx.fn('SubscriptionObserver', 'new'), []))
         mstate = Cell(mk_opt(ctx, 'State', 'subscriptions/subscription_manager', subscriptions=MapM([]), next_id=S(p.fresh('s_next'), 'u32')), 'smgr-state')
         delegate = mk(ctx, 'SubscriptionManagerDelegate', state=ArcCell(Cell(LockM('subscription_manager.state', mstate))))
-        pstate = Cell(mk(ctx, 'PushSubscriptionsRegistryState', push_subscriptions=MapM([])), 'pstate')
+        pstate = Cell(mk_single(ctx, 'PushSubscriptionsRegistryState', MapM([])), 'pstate')
         reg = mk(ctx, 'PushSubscriptionsRegistry', state=ArcCell(Cell(LockM('push_registry.state', pstate))))
         n0 = len(p.log)
         run_to_end(ip.call_fn(ctx.fn('SubscriptionActor', 'start'),
